@@ -339,6 +339,18 @@ def rule_xport(m):
                                     body = set(f.descendants(n['body']))
                                     asg = [tt.t(x['i']) for x in f.nodes if x['i'] in body and x['k'] in ('BinaryOperator', 'CXXOperatorCallExpr')
                                            and tt.t(x['i'])[0] == 'bin' and tt.t(x['i'])[1] == '=']
+                                    # map.emplace(v, c) / map.insert({v, c}) on keys that are all new (the elements of a set) stores
+                                    # the same pairs as map[v] = c
+                                    for x in f.nodes:
+                                        if x['i'] in body and x['k'] == 'CXXMemberCallExpr':
+                                            mt = tt.t(x['i'])
+                                            if mt[0] == 'mcall' and mt[2] == mp and mt[1].endswith(('::emplace', '::insert')):
+                                                ar = [strip_cast(a0) for a0 in mt[3]]
+                                                if len(ar) == 1 and ar[0][0] in ('pair', 'ctor') and len(ar[0]) > 1:
+                                                    inner = ar[0][1:] if ar[0][0] == 'pair' else ar[0][2]
+                                                    ar = [strip_cast(a0) for a0 in inner]
+                                                if len(ar) == 2:
+                                                    asg.append(('bin', '=', ('idx', mp, ar[0]), ar[1]))
                                     for t in asg:
                                         if t[2] == ('idx', mp, v) and t[3][0] == 'un' and t[3][1] == '++' and t[3][2] and t[3][3][0] == 'var':
                                             t = (t[0], t[1], t[2], t[3][3])      # map[v] = counter++
@@ -1042,6 +1054,20 @@ def rule_idx(m):
                                  'end() must be (endVertex, getOutNeighbours(endVertex).end()) with endVertex = getEndVertex(graph)'))
         # ---- endVertex field initialised from getEndVertex(graph)
         for f in m.by_tname.get(cls + '::Edges::constEdgeIterator::constEdgeIterator', []):
+            if f.unit.decl(f.decl).get('special'):
+                # a hand-written copy / move constructor takes every member from its source
+                src = ('var', f.params[0]) if f.params else None
+                tt0 = Terms(f)
+                res.sites += 1
+                inits = {f.unit.decl(it['field'])['name']: tt0.t(it['init']) for it in f.d.get('inits', []) if 'field' in it and it.get('init', -1) >= 0}
+                bad = [nm for nm in ('vertex', 'endVertex', 'neighbour', 'graph')
+                       if not any(st[0] == 'member' and st[1] == src and st[2].endswith('::' + nm) for st in subterms(inits.get(nm, ('none',))))]
+                if bad:
+                    res.fail(Finding('F-IDX', f.display(), 'iterator copy', f.where(),
+                                     'the hand-written copy of the edge iterator does not take `%s` from its source' % bad[0]))
+                else:
+                    res.ok(None, fn=f.display())
+                continue
             res.sites += 1
             tt = Terms(f)
             okc = False
